@@ -15,6 +15,8 @@ var propRules = map[string][]string{
 	"C08": {"C08.R1", "C08.R2", "C08.R3", "C08.R4"},
 	"C09": {"C09.R1", "C09.R2", "C09.R3", "C09.R4"},
 	"C10": {"C10.R1", "C10.R2", "C10.R3", "C10.R4"},
+	"C12": {"C12.R1", "C12.R2", "C12.R3"},
+	"C13": {"C13.R1", "C13.R2", "C13.R3"},
 	"C11": {"C11.R1", "C11.R2", "C11.R4", "C06.R5"},
 	"C06": {"C06.R1", "C06.R2", "C06.R3", "C06.R4", "C06.R5"},
 }
